@@ -31,6 +31,9 @@ func (s *Sim) checkPosition(b *WB, q *ecs.Query, want ecs.Entity, what string) *
 			return finding(CatScan, "%s: %s: Query.Ids at #%d = %v, World.Ids = %v", b.Name, what, ord, qi, wi)
 		}
 	}
+	// both are documented as copies that "can be manipulated safely": do so
+	scribbleIDs(qi)
+	scribbleIDs(wi)
 	for c := 0; c < b.U.N(); c++ {
 		id := b.IDs[c]
 		if q.Has(id) != b.W.Has(h, id) {
